@@ -286,8 +286,6 @@ def refute(pc, neg, extra_str=3, extra_ref=6, timeout_ms=3000, str_consts=()):
     except OverflowError:
         return z3.unknown, None, 'expansion too large'
     s = z3.Solver()
-    s.set('rlimit', int(timeout_ms * 5000))
-    s.set('timeout', timeout_ms * 6)
     s.add(*expanded)
     s.add(*ex.side)
     s.add(z3.Distinct(*universe[Str]))
@@ -301,7 +299,8 @@ def refute(pc, neg, extra_str=3, extra_ref=6, timeout_ms=3000, str_consts=()):
     for t in closure_terms(expanded, [Str, Ref], None):
         u = universe[Str] if t.sort() == Str else universe[Ref]
         s.add(z3.Or([t == c for c in u]))
-    r = s.check()
+    from .core import PathRunner
+    r = PathRunner.guarded_check(s, timeout_ms)
     info = f'finite universe: {len(universe[Str])} strings, {len(universe[Ref])} references'
     if r == z3.sat:
         return r, s.model(), info
